@@ -212,7 +212,11 @@ pub fn run_check(spec: &PropSpec, tier: &str, base_seed: u64, threads: usize) ->
     let mut merged = BatchOut::default();
     let mut fam_runs: BTreeMap<&'static str, u64> = BTreeMap::new();
     for (fam, share) in &spec.families {
-        let runs = (total_runs * u64::from(*share) / 100).max(1);
+        // (share 0: a family of few, long runs - a fixed number in the thorough tier, none in the quick one)
+        let runs = if *share == 0 { if tier == "thorough" { 16 } else { 0 } } else { (total_runs * u64::from(*share) / 100).max(1) };
+        if runs == 0 {
+            continue;
+        }
         let o = match crate::batch::run_batch_auto(spec.id, *fam, base_seed, runs, threads, wall_limit, spec.nontrivial) {
             Ok(o) => o,
             Err(e) => {
@@ -257,7 +261,9 @@ pub fn run_check(spec: &PropSpec, tier: &str, base_seed: u64, threads: usize) ->
             exit = 2;
             continue;
         }
-        let (min, used) = shrink(fam, &f.choices, &key, if tier == "thorough" { 3000 } else { 1200 });
+        // (runs of the long-history family take seconds each: a handful of shrink attempts only)
+        let budget = if f.choices.len() > 20_000 { 12 } else if tier == "thorough" { 3000 } else { 1200 };
+        let (min, used) = shrink(fam, &f.choices, &key, budget);
         let out = run_one(fam, Mode::Replay(min.clone()));
         let v = check_all(&out).into_iter().find(|x| x.key == key).unwrap_or(ex.clone());
         let path = write_replay(spec.id, fam, &v, f.first_seed, f.first_idx, base_seed, &min, &out);
